@@ -166,3 +166,107 @@ pub fn parallel_conflict(dm: Dm) -> (Doc, Vec<Vec<String>>) {
 pub fn all(dm: Dm) -> Vec<(Doc, Vec<Vec<String>>)> {
     vec![parallel_done(dm), histories(dm), parallel_conflict(dm)]
 }
+
+/// Random tree of nested parallels whose leaf regions reach a final child on their own event:
+/// regions are compound leaves, nested parallels, or compound states wrapping a parallel.
+/// Every completion order of the leaves is a different question for the done-event rule.
+pub fn done_tree(rng: &mut crate::rng::Rng, dm: Dm, idx: usize) -> (Doc, Vec<Vec<String>>) {
+    struct B<'a> {
+        rng: &'a mut crate::rng::Rng,
+        dm: Dm,
+        n: usize,
+        events: Vec<String>,
+        containers: Vec<String>,
+    }
+    impl<'a> B<'a> {
+        fn leaf(&mut self) -> Node {
+            self.n += 1;
+            let k = self.n;
+            let ev = format!("g{}", k);
+            self.events.push(ev.clone());
+            let rid = format!("r{}", k);
+            let mut a = st(&format!("r{}a", k), Kind::State, self.dm);
+            let f = st(&format!("r{}f", k), Kind::Final, self.dm);
+            let mut r = st(&rid, Kind::State, self.dm);
+            if self.rng.chance(1, 3) {
+                // two steps to the final state
+                let mut b = st(&format!("r{}b", k), Kind::State, self.dm);
+                let ev2 = format!("h{}", k);
+                self.events.push(ev2.clone());
+                a.trans.push(tr(&format!("r{}a.0", k), &ev2, &[&format!("r{}b", k)], self.dm));
+                b.trans.push(tr(&format!("r{}b.0", k), &ev, &[&format!("r{}f", k)], self.dm));
+                r.children = vec![a, b, f];
+            } else {
+                a.trans.push(tr(&format!("r{}a.0", k), &ev, &[&format!("r{}f", k)], self.dm));
+                r.children = vec![a, f];
+            }
+            self.containers.push(rid);
+            r
+        }
+        fn par(&mut self, depth: usize) -> Node {
+            self.n += 1;
+            let id = format!("p{}", self.n);
+            let mut p = st(&id, Kind::Parallel, self.dm);
+            let regions = 2 + self.rng.below(2);
+            for _ in 0..regions {
+                let c = if depth < 3 && self.rng.chance(3, 8) {
+                    if self.rng.chance(1, 2) {
+                        self.par(depth + 1)
+                    } else {
+                        // compound region wrapping a parallel: final child on the parallel's done event
+                        self.n += 1;
+                        let k = self.n;
+                        let inner = self.par(depth + 1);
+                        let mut w = st(&format!("w{}", k), Kind::State, self.dm);
+                        let mut hold = st(&format!("w{}h", k), Kind::State, self.dm);
+                        hold.trans.push(tr(&format!("w{}h.0", k), &format!("done.state.{}", inner.id), &[&format!("w{}f", k)], self.dm));
+                        hold.children = vec![inner];
+                        let f = st(&format!("w{}f", k), Kind::Final, self.dm);
+                        w.children = vec![hold, f];
+                        self.containers.push(format!("w{}", k));
+                        w
+                    }
+                } else {
+                    self.leaf()
+                };
+                p.children.push(c);
+            }
+            self.containers.push(id);
+            p
+        }
+    }
+    let mut b = B { rng, dm, n: 0, events: vec![], containers: vec![] };
+    let top = b.par(1);
+    let top_id = top.id.clone();
+    let mut s0 = st("s0", Kind::State, dm);
+    s0.children = vec![top];
+    let mut k = 0;
+    let ends = b.rng.chance(1, 2);
+    if ends {
+        s0.trans.push(tr(&format!("s0.{}", k), &format!("done.state.{}", top_id), &["end"], dm));
+        k += 1;
+    }
+    // every done event is observed (targetless) at the top
+    for c in b.containers.clone() {
+        if ends && c == top_id {
+            continue;
+        }
+        s0.trans.push(tr(&format!("s0.{}", k), &format!("done.state.{}", c), &[], dm));
+        k += 1;
+    }
+    let end = st("end", Kind::Final, dm);
+    let d = doc(&format!("done-tree-{}", idx), dm, vec![s0, end]);
+    let mut paths = Vec::new();
+    for _ in 0..4 {
+        let mut evs = b.events.clone();
+        b.rng.shuffle(&mut evs);
+        // h-events must precede their g-event to make progress; repeat the whole list twice so
+        // every leaf finishes in most orders, then two events that stay queued
+        let mut path = evs.clone();
+        b.rng.shuffle(&mut evs);
+        path.extend(evs);
+        path.truncate(24);
+        paths.push(path);
+    }
+    (d, paths)
+}
